@@ -836,9 +836,11 @@ class FlatSamplerCache:
             debug_info = api_util.debug_info("_make_flat", f, args, kwargs)
             jaxpr, *_ = stage(f)(*args, **kwargs)
 
-            def flat(*flat_args, **params):
-                consts, args = split_list(flat_args, [params["num_consts"]])
-                return eval_jaxpr(jaxpr.jaxpr, consts, *args)
+            def flat(key, *flat_args, **params):
+                # The site's own staged constants come before its parameters; the
+                # constants of the keyful sampler are those of this staging.
+                _, args = split_list(flat_args, [params["num_consts"]])
+                return eval_jaxpr(jaxpr.jaxpr, jaxpr.consts, key, *args)
 
             return flat, debug_info
 
